@@ -1,6 +1,6 @@
 """C04 — dependency bounds bubble up exactly."""
 from ..common import Report
-from ..corpus import load
+from ..corpus import load, load_repo_tests
 from ..wrules import check_fnmod_predicates
 
 RULE_TEXT = ("R-PRED over every fn/mod expansion: the resolved predicate set of each generated impl "
@@ -16,8 +16,10 @@ def run(tier):
     rep = Report("C04", tier, "translation_validation")
     configs = ["plain", "unimock_test"] if tier == "quick" else ["plain", "test", "unimock", "unimock_test"]
     programs = 0
-    for cfg in configs:
-        ld = load(rep, "pos", cfg)
+    loaded = [(cfg, load(rep, "pos", cfg)) for cfg in configs]
+    if tier == "thorough":
+        loaded.append(("unimock_test", load_repo_tests(rep)))
+    for cfg, ld in loaded:
         for exp in ld.crate.expansions:
             if exp.mode in ("fn", "mod"):
                 check_fnmod_predicates(rep, ld.crate, exp, cfg)
